@@ -56,9 +56,7 @@ def gen_case(rnd, prop, tier):
     total = rnd.choice([1.0, 3.7, 10.0, 123.5, 1000.0]) if rows is None else rnd.choice([0.9, 1.0, 123.5, 1e6])
     if rows is None and rnd.random() < 0.1:
         total = 20000.9
-    elim = a_bp.gen_elim(rnd, attrs)
-    if isinstance(elim, dict):
-        elim = None
+    elim = a_bp.gen_elim(rnd, attrs)      # None / permutation / int mode (stochastic orders drawn from the SimRNG)
     pol = rnd.choice(['faithful', 'faithful', 'adv-low', 'adv-high', 'adv-first', 'mixed', 'many-min', 'many-const'])
     rates = {'faithful': {}, 'adv-low': {'nr_lowest': 1.0}, 'adv-high': {'nr_highest': 1.0}, 'adv-first': {'nr_first': 1.0},
              'mixed': {'nr_lowest': 0.3, 'nr_highest': 0.3, 'nr_first': 0.2, 'many_min': 0.2, 'many_const': 0.2},
@@ -194,8 +192,9 @@ def run_once(mbi, case, model, rows, viol, faults, probes, seqs, tag, key='pots'
         if not np.isfinite(lhs) or abs(lhs - rhs) > 1e-7 * (abs(rhs) + 1.0) + 1e-6:
             viol.append(Violation('syn-chain-rule', 'syn-chain-rule', 'sum log p[outcome] over the choice events = %.9g but sum log P(row)/total = %.9g: '
                                   'the conditionals handed to the PRNG are not the model\'s (%s)' % (lhs, rhs, tag)).as_dict())
-        if len(choice_events) != sum(1 for ev in rng.events) or any(not ev['replace'] for ev in choice_events):
-            probes['sample-mode-other-events'] = 1
+        other = [ev['kind'] for ev in rng.events if ev['kind'] != 'choice']
+        if other:
+            viol.append(Violation('syn-sample-seam', 'syn-sample-seam', 'sampling mode drew %s besides choice(): records are no longer one categorical draw per column and row (%s)' % (sorted(set(other)), tag)).as_dict())
     else:
         sizes_of = dict(zip(attrs, sizes))
         S, E = rounding_bounds(model, sizes_of)
